@@ -131,7 +131,16 @@ func c08Next(versioned bool) func(g *prog.Gen, idx int, hist []*prog.Step) *prog
 		case r < 12:
 			p := g.PutSpec()
 			p.Data = nil
-			return &prog.Op{Kind: "createUpload", Caller: caller, B: b, K: keys[g.R.Intn(2)], Put: p, Valid: true}
+			k := keys[g.R.Intn(2)]
+			// an initiation that is refused after the backend has begun to create the upload (lock headers on
+			// a bucket without object lock), preferably for a key that has uploads in progress: they must survive
+			if g.R.Chance(30) {
+				p.Hold = true
+				if len(open) > 0 {
+					k = open[g.R.Intn(len(open))].key
+				}
+			}
+			return &prog.Op{Kind: "createUpload", Caller: caller, B: b, K: k, Put: p, Valid: true}
 		case r < 45:
 			u := pick()
 			num := 1 + g.R.Intn(4)
@@ -189,6 +198,11 @@ func c08Next(versioned bool) func(g *prog.Gen, idx int, hist []*prog.Step) *prog
 				}
 			case 2: // a part that was never uploaded
 				nums = append(nums, 9)
+			case 3: // a part listed twice in a row (with its correct ETag)
+				if len(nums) > 0 {
+					i := g.R.Intn(len(nums))
+					nums = append(nums[:i+1], nums[i:]...)
+				}
 			}
 			for _, k := range nums {
 				et := u.parts[k]
@@ -228,5 +242,5 @@ func init() {
 	}
 	checks["c08"] = checkDef{"C08",
 		"adaptive programs of create / upload-part (numbers 1-4, re-uploads, sizes 0-2000 and 5 MiB±1, four payload encodings) / upload-part-copy (no range, whole, inner, single byte, end beyond source) / list-parts / list-uploads / complete (all parts, a subset, wrong order, a never-uploaded number, a wrong ETag) / abort over several uploads incl. several for one key, interleaved with plain PUT/GET of the same keys, on unversioned and versioned buckets, over two gateway processes; upload ids and ETags are read from the implementation's answers. Compared with Model.Gw.step. Non-trivial = program reaches the bucket; distinct by op list.",
-		[]checkFn{fam("mp-unversioned", false, false, 801, 50, 2500), fam("mp-versioned-namedtmp", true, true, 802, 20, 1000)}}
+		[]checkFn{fam("mp-unversioned", false, false, 801, 150, 4000), fam("mp-versioned-namedtmp", true, true, 802, 50, 1500)}}
 }
